@@ -1,4 +1,4 @@
-"""C06 - HTJ2K lossless (.201/.202): exact round trip (third-party fixtures: see below)."""
+"""C06 - HTJ2K lossless (.201/.202): exact round trip and exact decode of the 14 third-party fixtures."""
 from checks import rtcommon
 
 
@@ -10,5 +10,7 @@ def run(ctx):
         rule="scenario = Encode then Decode of the registered .201 / .202 codec; Rows x Columns grid 1..80 (quick: all of 1..3 x "
              "1..3 and 1/41 of the rest by seed), 1-wide and 1-high images, random sizes; BitsAllocated {8,16}, BitsStored <= "
              "BitsAllocated, SPP {1,3}, signed/unsigned; typed/generic/nil parameters with BlockWidth/Height in {4..64}, NumLevels "
-             "0..6; 12 content classes. distinct_nontrivial = distinct (syntax, BA, BS, SPP, signed, block size, levels, class)",
+             "0..6; 12 content classes; plus every lossless codestream listed in test-data/htj2k/interop/manifest.json (14 OpenJPH / "
+             "fo-dicom streams, default and RPCL progression) decoded through the registered codec of its progression and compared "
+             "with the fixture's input.raw byte for byte (event fixdec; the 888x459 16-bit pair by SHA-256). distinct_nontrivial = distinct (syntax, BA, BS, SPP, signed, block size, levels, class)",
         assumptions=["frames above 128 KiB in total are compared by SHA-256 computed in the harness"])
